@@ -10,6 +10,7 @@ def main():
     modname, shard_json, out = sys.argv[1], sys.argv[2], sys.argv[3]
     faulthandler.enable()
     shard = json.loads(shard_json)
+    os.environ["VERIF_CUR_FILE"] = out + ".cur"
     mod = importlib.import_module(modname)
     res = mod.run_shard(shard)
     tmp = out + ".tmp"
